@@ -205,7 +205,10 @@ def run_parsers(prop, tier):
             "seeds": {"base": base, "first": base * 1000003, "count_main_group": sum(1 for (g, s) in agg.digests if g == "A")},
             "logical_steps": {k: agg.stats[k] for k in sorted(agg.stats)},
             "events_logged": agg.events,
-            "simulated_time": "none: the library has no timers, sleeps or deadlines; steps are logical",
+            "simulated_time": ("the library has no timers, sleeps or deadlines (measured: %d clock reads by library code); steps are logical. A simulated clock is "
+                               "installed in every run and jumped %d times, %d simulated seconds in total (%.1f simulated years), so that a change "
+                               "which makes a result depend on time is seen") % (agg.stats["clock_reads_by_library"], agg.stats["clock_jumps"], agg.stats["clock_jumped_s"],
+                                                                                 agg.stats["clock_jumped_s"] / 31557600.0),
             "cross_interpreter": {"seeds_compared_across_hash_seeds": compared, "hash_seeds": sorted(set(sum(groups.values(), []))),
                                   "library_output_mismatches": len(lib_mismatch)},
             "inconclusive_runs": agg.inconclusive,
